@@ -7,10 +7,51 @@ from fractions import Fraction
 from engine.harness import Harness
 from engine.symx import SNum, all_of, any_of, implies, neg
 from engine.vloop import Deadlock
+from engine.vtime import real_timedelta
 from harness.common import SEC, World, mem_places, observe_consumers, place_names, run_async
 
 
-def h09(S, n_jobs=2, queues=1, max_limit=3, dmax_us=3000, late=False, backend="mem"):
+def h09_timeout_cleanup(S):
+    """An actor that exceeds its execution timeout and needs time to clean up still occupies its slot."""
+    from repid import Job, Router, Worker
+    from repid.converter import BasicConverter
+
+    c = S.real("cleanup_s", 0, Fraction(1, 2), lo_strict=True)
+    limit = S.int("tasks_limit", 1, 2)
+    n = 3
+    state = {"running": 0, "max": 0}
+    out = {}
+
+    async def main(loop):
+        w = World()
+        await w.open(record=False)
+        r = Router()
+
+        @r.actor(converter=BasicConverter)
+        async def job(i: int):
+            state["running"] += 1
+            S.check("running-within-limit", limit >= state["running"], info=f"running={state['running']} (an invocation still cleaning up counts)")
+            try:
+                await asyncio.sleep(2)          # longer than the 1 s execution timeout
+            finally:
+                await asyncio.sleep(c)          # clean-up after the cancellation
+                state["running"] -= 1
+
+        for i in range(n):
+            await Job("job", args={"i": i}, id_=f"m{i}", timeout=real_timedelta(seconds=1), _connection=w.conn).enqueue()
+        worker = Worker(routers=[r], handle_signals=[], _connection=w.conn, graceful_shutdown_time=5.0, messages_limit=n, tasks_limit=limit)
+        try:
+            await asyncio.wait_for(worker.run(), timeout=30)
+            out["returned"] = True
+        except asyncio.TimeoutError:
+            out["returned"] = False
+
+    run_async(main)
+    S.cover("timeouts-with-cleanup")
+    S.check("no-stall", out["returned"])
+
+
+def h09(S, n_jobs=2, queues=1, max_limit=3, dmax_us=3000, late=False, backend="mem", late_max_us=None):
     from repid import Job, Router, Worker
     from repid.converter import BasicConverter
 
@@ -18,7 +59,14 @@ def h09(S, n_jobs=2, queues=1, max_limit=3, dmax_us=3000, late=False, backend="m
     dmax = Fraction(dmax_us, 10**6)
     d = [S.real(f"d{i}", 0, dmax, lo_strict=True) for i in range(n_jobs)]
     fails = [S.bool(f"fail{i}") for i in range(n_jobs)]
-    arrive = S.real("late_arrival", 0, dmax) if late else None
+    burst = late and late_max_us is not None
+    if burst:
+        # the worker is up and idle first; a burst arrives at 0.5 s + phase (any polling phase of the consumer),
+        # the last job arrives a fixed 0.3 s, 1 s or 2.1 s after the burst (far-apart instants are enumerated)
+        phase = S.real("burst_phase_s", 0, Fraction(1, 10))
+        arrive = [Fraction(3, 10), Fraction(1), Fraction(21, 10)][S.pick("late_arrival_choice", 3)]
+    else:
+        arrive = S.real("late_arrival", 0, dmax) if late else None
     state = {"running": 0, "done": [], "started": [], "max": 0}
     out = {}
     qnames = ["q%d" % i for i in range(queues)]
@@ -41,7 +89,7 @@ def h09(S, n_jobs=2, queues=1, max_limit=3, dmax_us=3000, late=False, backend="m
                 log.append(("exit", i, state["running"]))
                 if fails[i]:
                     raise ValueError("x")
-        n_pre = n_jobs - 1 if late else n_jobs
+        n_pre = 0 if burst else (n_jobs - 1 if late else n_jobs)
         for i in range(n_pre):
             qn = qnames[i % queues]
             await Job("job_" + qn, queue=qn, args={"i": i}, id_=f"m{i}", _connection=w.conn).enqueue()
@@ -55,7 +103,7 @@ def h09(S, n_jobs=2, queues=1, max_limit=3, dmax_us=3000, late=False, backend="m
                 await Job("job_" + qn, queue=qn, args={"i": i}, id_=f"m{i}", _connection=w.conn).enqueue()
             asyncio.create_task(producer())
         t0 = loop.time()
-        total_s = sum(d[1:], d[0]) + (arrive if late else 0)
+        total_s = sum(d[1:], d[0]) + (arrive if late else 0) + (Fraction(6, 10) if burst else 0)
         try:
             await asyncio.wait_for(worker.run(), timeout=total_s + (1.0 if backend == "mem" else 10.0))
             out["returned"] = True
@@ -77,7 +125,7 @@ def h09(S, n_jobs=2, queues=1, max_limit=3, dmax_us=3000, late=False, backend="m
     S.check("all-jobs-executed", sorted(state["done"]) == list(range(n_jobs)), info=str(state))
     S.check("each-job-once", len(state["started"]) == n_jobs, info=str(state["started"]))
     total = sum(d[1:], d[0])
-    bound = total + (arrive if late else 0)
+    bound = total + (arrive if late else 0) + (Fraction(6, 10) if burst else 0)
     S.check("finishes-within-sum-of-durations-plus-slack", out["makespan"] <= bound + (0.05 if backend == "mem" else 2.0),
             info=str(out["makespan"]))
     # while a consumer is paused nothing is delivered from it, and every pause is followed by an unpause
@@ -121,6 +169,16 @@ HARNESSES = [
                 "actor durations": "each any real in (0, 250 ms] (the consumer polls every 100 ms)", "tasks_limit": "[1, 2]", "jobs": "2 quick / 3 thorough"},
         functions=["connections/redis/consumer.py:_RedisConsumer.pause", "connections/redis/consumer.py:_RedisConsumer.backgroud_consume"],
         covers=["run-returned", "pause-observed"], stubs=["fake Redis server"]),
+    Harness(
+        name="H09-timeout-cleanup", scenario=h09_timeout_cleanup, workers=8,
+        bounds={"actors": "3 jobs sleeping 2 s under a 1 s execution timeout, each needing any real clean-up time in (0, 0.5 s] after cancellation", "tasks_limit": "[1, 2]"},
+        functions=["_processor.py:_Processor._actor_run"], covers=["timeouts-with-cleanup"]),
+    Harness(
+        name="H09-redis-late-arrival", scenario=h09, workers=16, budget_s=900,
+        params={"quick": {"n_jobs": 3, "queues": 1, "dmax_us": 40000, "max_limit": 1, "backend": "redis", "late": True, "late_max_us": 2500000},
+                "thorough": {"n_jobs": 3, "queues": 1, "dmax_us": 250000, "max_limit": 2, "backend": "redis", "late": True, "late_max_us": 2500000}},
+        bounds={"broker": "Redis consumer on the fake server", "jobs": "worker idle first; a burst of 2 at 0.5 s + any real phase in [0, 0.1 s]; a third 0.3 s, 1 s or 2.1 s later", "durations": "(0, 40 ms] quick / (0, 250 ms] thorough", "tasks_limit": "1 quick / [1,2] thorough"},
+        covers=["run-returned"], stubs=["fake Redis server"]),
     Harness(
         name="H09-late-arrival", scenario=h09, workers=16, budget_s=900, tiers=("thorough",),
         params={"thorough": {"n_jobs": 2, "queues": 1, "dmax_us": 2000, "late": True}},
